@@ -10,5 +10,5 @@ for p in "$@"; do
     st=$(grep -E "^stored|NOT KEPT|PATCH DOES NOT" /tmp/intake-$p-$i.out | head -1)
     echo "$p#$i: $line | $st"
   done
-  git -C /repo worktree remove --force $pre-$p 2>/dev/null
+  if grep -q 'NOT KEPT\|PATCH DOES NOT' /tmp/intake-$p-*.out 2>/dev/null; then echo "  (worktree $pre-$p kept for inspection)"; else git -C /repo worktree remove --force $pre-$p 2>/dev/null; fi
 done
